@@ -95,7 +95,7 @@ add("C01", "model_checking",
 
 add("C05", "model_checking",
     "trace conformance through the real Actuator.run: instance-level wrappers on every market's set_market_status / update plus a tracing strategy give one global phase trace (with action-log and history lengths at every event) that is matched event by event against the loop specification, over market mixes x bar intervals x scripted operations in every hook",
-    "8 market mixes (pool; pool + Aave; Aave over a liquidating path; Squeeth + pool; GLP; GM; options alone; options beside a minutely pool) x intervals 1min / 2min / 5min / 1h (resampling by the markets' own _resample) x one accepted or rejected operation in initialize / before_bar / a time trigger / on_bar / after_bar at bars 0, 1, last (thorough: all pairs). Judged: every bar of the arithmetically computed bar grid exactly once, ascending; per bar status(all) -> before_bar -> due triggers -> on_bar -> second status exactly for markets with a pending write -> update(all) once -> after_bar -> history row -> notify of exactly the actions recorded in this bar, each once, in order; status refreshes never change positions; every action stamped with its bar; account_status_df has one row per bar with that bar's timestamp and token prices.",
+    "8 market mixes (pool; pool + Aave; Aave over a liquidating path; Squeeth + pool; GLP; GM; options alone; options beside a minutely pool) x intervals 1min / 2min / 5min / 1h (resampling by the markets' own _resample) x one accepted or rejected operation in initialize / before_bar / a time trigger / on_bar / after_bar at bars 0, 1, last (thorough: all pairs). Judged: every bar of the arithmetically computed bar grid exactly once, ascending; per bar status(all) -> before_bar -> due triggers -> on_bar -> at most one further status refresh per market -> update(all) once -> after_bar -> history row -> notify of exactly the actions recorded in this bar, each once, in order; status refreshes never change positions; every action stamped with its bar; account_status_df has one row per bar with that bar's timestamp and token prices.",
     "Trusted: the loop specification and the bar-grid arithmetic in mc/checks/c05.py. Actions made in finalize() are outside the bars.",
     "DESIGN.md §5 C05")
 
